@@ -8,6 +8,7 @@ from ..callgraph import CallGraph
 SINKERR = ('sym', 'sink-error')
 
 SINK_TRAIT = 'embedded_io::Write'
+FN_TRAITS = ('core::ops::function::FnOnce', 'core::ops::function::FnMut', 'core::ops::function::Fn')
 USER_TRAITS = {
     'service::CommandProcessor': 'DISPATCH',
     'service::Help': 'CB',
@@ -34,7 +35,7 @@ def classify_extern(ci, args):
     if tr in USER_TRAITS and not ci.resolved:
         kind = USER_TRAITS[tr]
         return 'DISPATCH' if kind == 'DISPATCH' else 'CB:' + ci.name
-    if tr in ('core::ops::FnOnce', 'core::ops::FnMut', 'core::ops::Fn') and args and args[0][0] not in ('closure', 'fn'):
+    if tr in FN_TRAITS and args and args[0][0] not in ('closure', 'fn'):
         a = args[0]
         return 'CB:closure'
     return None
@@ -55,7 +56,7 @@ def outcomes_for_type(I, ty):
         if p == RESULT:
             out = [('Ok', ok(TOP if ty['args'][0].get('s') != '()' else UNIT))]
             et = ty['args'][1] if len(ty['args']) > 1 else {}
-            if et.get('k') == 'param':
+            if et.get('k') == 'param' or (et.get('k') == 'alias' and 'ErrorType>::Error' in et.get('s', '')):
                 out.append(('Err(sink)', err(SINKERR)))
             elif et.get('k') == 'adt':
                 ep = strip_crate(F.norm_path(et['path']))
@@ -100,7 +101,7 @@ class EventRule:
             tr = strip_crate(f.get('trait'))
             if not f.get('resolved') and (tr == SINK_TRAIT or tr in USER_TRAITS):
                 return True
-            if tr in ('core::ops::FnOnce', 'core::ops::FnMut', 'core::ops::Fn') and not f.get('resolved'):
+            if tr in FN_TRAITS and not f.get('resolved'):
                 return True
             np_ = F.norm_path(f.get('resolved') or f.get('path'))
             if np_ in self.local_events or F.norm_path(f.get('path')) in self.local_events:
@@ -117,7 +118,7 @@ class EventRule:
     def inline_ok(self, I, ci, body):
         if body.npath in self.no_inline:
             return False
-        return body.path in self._interesting
+        return F.raw_key(body.path) in self._interesting
 
     # -- events --
     def classify(self, I, w, ci, args):
@@ -139,6 +140,8 @@ class EventRule:
         return res
 
     def outcomes(self, I, w, ci, args, ev):
+        if ev in ('SINK_WRITE', 'SINK_FLUSH'):
+            return [('Ok', ok(TOP if ev == 'SINK_WRITE' else UNIT)), ('Err(sink)', err(SINKERR))]
         return outcomes_for_type(I, ci.dest_ty)
 
     def havoc_args(self, I, w, ci, args, ev):
